@@ -98,6 +98,9 @@ func (c *ctx) addCase(term, line string) {
 	if len(c.cur.terms) >= c.maxCases {
 		c.beginCases(c.cur.imports, c.cur.ctype, c.cur.check)
 	}
+	if hexSub != nil && hexSubDef != "" && strings.Contains(term, hexSubTerm) {
+		term = "(let " + hexSubTerm + " := " + hexSubDef + " in " + term + ")"
+	}
 	c.cur.terms = append(c.cur.terms, term)
 	c.cur.lines = append(c.cur.lines, line)
 	c.evals++
@@ -175,6 +178,7 @@ func qB(b bool) string {
 // byte strings are written as that term, which keeps case files with large payloads small.
 var hexSub []byte
 var hexSubTerm string
+var hexSubDef string // when hexSubTerm is a name: its definition, bound once around the whole case term
 
 func qHex(b []byte) string {
 	if len(hexSub) >= 64 && len(b) >= len(hexSub) {
@@ -182,7 +186,37 @@ func qHex(b []byte) string {
 			if len(b) == len(hexSub) {
 				return hexSubTerm
 			}
-			return "(" + qHexPlain(b[:i]) + " ++ " + hexSubTerm + " ++ " + qHex(b[i+len(hexSub):]) + ")%list"
+			return "(" + qHex(b[:i]) + " ++ " + hexSubTerm + " ++ " + qHex(b[i+len(hexSub):]) + ")%list"
+		}
+	}
+	if len(hexSub) >= 2048 && len(b) >= 2048 {
+		// a damaged copy: name the intact eighths of the long string by slices of its generator term
+		n := len(hexSub) / 8
+		var parts []string
+		rest := b
+		found := false
+		for len(rest) > 0 {
+			best, bi := -1, -1
+			for i := 0; i < 8; i++ {
+				if j := bytes.Index(rest, hexSub[i*n:(i+1)*n]); j >= 0 && (best < 0 || j < best) {
+					best, bi = j, i
+				}
+			}
+			if best < 0 {
+				break
+			}
+			found = true
+			if best > 0 {
+				parts = append(parts, qHexPlain(rest[:best]))
+			}
+			parts = append(parts, fmt.Sprintf("(seg %s %d %d)", hexSubTerm, bi*n, n))
+			rest = rest[best+n:]
+		}
+		if found {
+			if len(rest) > 0 {
+				parts = append(parts, qHexPlain(rest))
+			}
+			return "(" + strings.Join(parts, " ++ ") + ")%list"
 		}
 	}
 	return qHexPlain(b)
